@@ -255,6 +255,45 @@ fn gen_c04(sink: &mut Sink, tier: &str, seed: u64) {
     }
 }
 
+/// C01 / C07 / C02 (typed): every registered built-in instantiation: round trip, re-framed encodings, mutations.
+#[cfg(feature = "std")]
+fn gen_typed(sink: &mut Sink, tier: &str, seed: u64, want: &str) {
+    let mut rng = StdRng::seed_from_u64(seed ^ 0xc01);
+    crate::types::THOROUGH.store(tier == "thorough", core::sync::atomic::Ordering::Relaxed);
+    let n = match (tier, want) { ("thorough", "mut") => 120, ("thorough", _) => 400, (_, "mut") => 12, _ => 40 };
+    crate::types::exercise_all(&mut rng, sink, n, want);
+}
+
+/// C07 for tokens: every Token variant over boundary arguments: bytes written vs length computed.
+#[cfg(all(feature = "std", feature = "half"))]
+fn gen_toklen(sink: &mut Sink, tier: &str, seed: u64) {
+    use minicbor::data::{Int, Tag, Token};
+    let mut rng = StdRng::seed_from_u64(seed ^ 0xc07);
+    let mut args: Vec<u64> = vec![0, 1, 19, 20, 23, 24, 25, 31, 32, 255, 256, 65535, 65536, u32::MAX as u64, u32::MAX as u64 + 1, u64::MAX];
+    for _ in 0..(if tier == "thorough" { 400 } else { 40 }) { args.push(crate::cbgen::rand_arg(&mut rng)) }
+    let blobs: Vec<Vec<u8>> = [0usize, 1, 2, 23, 24, 255, 256, 300].iter().map(|n| (0..*n).map(|i| (i % 251) as u8).collect()).collect();
+    let texts: Vec<String> = [0usize, 1, 23, 24, 255, 256].iter().map(|n| "x".repeat(*n)).collect();
+    let mut emit = |sink: &mut Sink, t: Token| {
+        let b = minicbor::to_vec(&t).unwrap_or_default();
+        sink.distinct_inputs += 1;
+        sink.put(json!({"fam":"typed","name":"toklen","tok":crate::toks::tok_json(&t),"variant":format!("{:?}", t).split('(').next().unwrap_or(""),
+                        "bytes":crate::abs::bytes(&b),"len":minicbor::len(&t)}));
+    };
+    for &a in &args {
+        emit(sink, Token::U8(a as u8)); emit(sink, Token::U16(a as u16)); emit(sink, Token::U32(a as u32)); emit(sink, Token::U64(a));
+        emit(sink, Token::I8(a as i8)); emit(sink, Token::I16(a as i16)); emit(sink, Token::I32(a as i32)); emit(sink, Token::I64(a as i64));
+        emit(sink, Token::I64(-1 - (a >> 1) as i64));
+        emit(sink, Token::Int(Int::from(a))); emit(sink, Token::Int(Int::try_from(-1 - a as i128).unwrap()));
+        emit(sink, Token::Array(a)); emit(sink, Token::Map(a)); emit(sink, Token::Tag(Tag::new(a)));
+        emit(sink, Token::F32(f32::from_bits(a as u32))); emit(sink, Token::F64(f64::from_bits(a)));
+        emit(sink, Token::F16(half::f16::from_bits(a as u16).to_f32()));
+    }
+    for s in 0..=255u8 { emit(sink, Token::Simple(s)) }
+    for b in &blobs { emit(sink, Token::Bytes(b)) }
+    for t in &texts { emit(sink, Token::String(t)) }
+    for t in [Token::Bool(true), Token::Bool(false), Token::Null, Token::Undefined, Token::Break, Token::BeginBytes, Token::BeginString, Token::BeginArray, Token::BeginMap] { emit(sink, t) }
+}
+
 /// C11: tokenise + re-encode generated item sequences (preferred and not), mutated and random bytes; encode + tokenise
 /// random token sequences.
 #[cfg(all(feature = "alloc", feature = "half"))]
@@ -468,6 +507,12 @@ pub fn cmd_gen(args: &[String]) -> i32 {
     match fam.as_str() {
         "c05" => gen_c05(&mut sink, tier, seed),
         "c06" => gen_c06(&mut sink, tier, seed),
+        #[cfg(feature = "std")]
+        "c01" => { gen_typed(&mut sink, tier, seed, "rt"); gen_typed(&mut sink, tier, seed + 1, "alt") }
+        #[cfg(all(feature = "std", feature = "half"))]
+        "c07" => { gen_typed(&mut sink, tier, seed, "rt"); gen_toklen(&mut sink, tier, seed) }
+        #[cfg(feature = "std")]
+        "c01mut" => gen_typed(&mut sink, tier, seed, "mut"),
         #[cfg(all(feature = "alloc", feature = "half"))]
         "c04" => gen_c04(&mut sink, tier, seed),
         #[cfg(all(feature = "alloc", feature = "half"))]
